@@ -586,7 +586,9 @@ def _is_valid_version(raw_pattern: str, old_version: str, new_version: str, uniq
         all_tags     = vcs.get_tags(fetch=False, scope=config.TagScope.GLOBAL)
         version_tags = _parse_version_tags(all_tags, raw_pattern, is_new_pattern)
 
-        if new_version in version_tags:
+        # NOTE: compared as versions, so that 1.3 is not unique if the tag 1.3.0 exists
+        new_version_key = version.parse_version(new_version)
+        if any(version.parse_version(tag) == new_version_key for tag in version_tags):
             logger.error("Invariant violated: New version must be unique accross all branches")
             return False
 
